@@ -800,6 +800,10 @@ func (e *env) replay() {
 		os.RemoveAll(filepath.Join(e.work, "replay"))
 	case "semantic":
 		e.replaySemantic(rd)
+	case "layout":
+		if e.partLayouts() > 0 && len(e.run.Infra) == 0 {
+			fmt.Println("(the layouts were run again as a whole)")
+		}
 	case "regen":
 		r, err := regenerate(e.tars2go, e.repo, e.work)
 		if err != nil {
@@ -895,6 +899,7 @@ func main() {
 	t0 = time.Now()
 	sem := e.partSemantic(pa.Corpus, thorough)
 	timings["e_semantically_invalid_s"] = time.Since(t0).Seconds()
+	nLayouts := e.partLayouts()
 
 	// ---- evidence
 	c := pa.Corpus
@@ -998,7 +1003,8 @@ func main() {
 		"bounds": map[string]any{"tier": run.Tier, "malformed": pb.bounds, "corpus_files": len(c.Files), "type_depth": 2, "tag_classes": gen.TagClasses},
 		"valid": map[string]any{"files": len(c.Files), "modules": len(c.Modules), "tool_runs": c.ToolRuns, "exclusion_rounds": c.Rounds, "generated_go_files": c.GenFiles, "generated_go_lines": c.GenLines,
 			"excluded_declarations": len(c.Excluded), "excluded_by_stage": exByStage, "timings_ms": c.TimingsMs, "whole_files_in_process": wholeN, "whole_files_tokens": wholeTokens, "flag_variants": pa.Variants},
-		"regeneration": rg,
+		"regeneration":    rg,
+		"include_layouts": map[string]any{"programs": nLayouts, "rule": "valid programs whose include trees span several directories (the same include name in two directories; a diamond over ../): the real binary must accept them and emit every module"},
 		"semantically_invalid": map[string]any{"programs": sem.Cases, "structs_edited": sem.Structs, "by_kind": sem.ByKind, "outcomes": sem.Outcomes,
 			"rule": "isolated source of a corpus struct with one edit: member i given the tag of member j (every ordered pair; both ends for wide structs), the struct declared twice, a member of an undeclared type; the real binary must refuse each with a diagnostic"},
 		"malformed": map[string]any{"families": famTable, "family_count": pb.families, "cases_enumerated": pb.total, "cases_run_in_process": inproc, "outcomes": outcomes, "tokens_lexed": tokens,
